@@ -327,16 +327,22 @@ theorem inline_chain (nm : Nat → String) (hinj : ∀ a b, nm a = nm b → a = 
     if_true, vSels, vSel]
   omega
 
+/-- the pass table read from `check_rules`: strict = one normal + one inline pass -/
+theorem modes_strict : countNormal (passModes true) = 1 ∧ countInline (passModes true) = 1 := by decide
+
+/-- … fast = one inline pass -/
+theorem modes_fast : countNormal (passModes false) = 0 ∧ countInline (passModes false) = 1 := by decide
+
 /-- a request whose limit checks pass reaches validation; its inline-mode visits are the pass's -/
 theorem run_of_pass (D : Defects) (c : Config) (d : Doc) (hd : (depthPinned c d).2 = true)
     (hm : ∀ lim, c.maxDirs = some lim → (dirsPinned c lim d).2 = true) :
     (run D c d).1 = .done ∧ (run D c d).2.selInline = inlinePass D c d := by
   unfold run
   cases hmd : c.maxDirs with
-  | none => cases hl : D.limitsNoMemo <;> cases hs : c.strict <;> simp [hd]
+  | none => cases hl : D.limitsNoMemo <;> cases hs : c.strict <;> simp [hd, modes_strict, modes_fast]
   | some lim =>
     have h2 := hm lim hmd
-    cases hl : D.limitsNoMemo <;> cases hs : c.strict <;> simp [hd, h2]
+    cases hl : D.limitsNoMemo <;> cases hs : c.strict <;> simp [hd, h2, modes_strict, modes_fast]
 
 -- ------------------------------------------------------------------ 2^n outgrows the bound
 
@@ -796,5 +802,121 @@ def spreadNames : List Sel → List String
   | [] => []
   | s :: ss => spreadNamesSel s ++ spreadNames ss
 end
+
+-- ------------------------------------------------------------------ pinned walkers, general upper bound
+
+/-- `(1 + F)^k` with `F` the selections of all fragment definitions: what `k` levels of fragment
+    nesting can multiply a walk by -/
+def fan (d : Doc) (k : Nat) : Nat := (1 + fragsSels d.frags) ^ k
+
+theorem fan_pos (d : Doc) (k : Nat) : 1 ≤ fan d k := Nat.pow_pos (by omega)
+
+theorem fan_succ (d : Doc) (k : Nat) : fan d (k + 1) = fan d k + fragsSels d.frags * fan d k := by
+  simp only [fan, Nat.pow_succ]
+  rw [Nat.mul_comm, Nat.add_mul, Nat.one_mul]
+
+theorem fan_mono (d : Doc) {a b : Nat} (h : a ≤ b) : fan d a ≤ fan d b :=
+  Nat.pow_le_pow_right (by omega) h
+
+theorem vFrag_fan (d : Doc) : ∀ k n, vFrag d k n + 1 ≤ fan d k
+  | 0, n => by simp [vFrag, fan]
+  | k + 1, n => by
+    have hp := fan_pos d k
+    simp only [vFrag]
+    rw [fan_succ]
+    split
+    · rename_i f heq
+      have hb := vSels_bounded (vFrag d k) (fan d k - 1) (fun m => by have := vFrag_fan d k m; omega) f.sels
+      have e : 1 + (fan d k - 1) = fan d k := by omega
+      rw [e] at hb
+      have := Nat.mul_le_mul_right (fan d k) (mem_fragsSels (frag?_mem heq))
+      omega
+    · omega
+
+theorem inlinePassPinned_fan (c : Config) (d : Doc) :
+    inlinePassPinned c d ≤ opsSels d.ops * fan d (c.recLimit + 1) := by
+  simp only [inlinePassPinned]
+  have hp := fan_pos d (c.recLimit + 1)
+  generalize d.ops = os
+  induction os with
+  | nil => simp [opsSels]
+  | cons o os ih =>
+    have hb := vSels_bounded (vFrag d (c.recLimit + 1)) (fan d (c.recLimit + 1) - 1)
+      (fun m => by have := vFrag_fan d (c.recLimit + 1) m; omega) o.sels
+    have e : 1 + (fan d (c.recLimit + 1) - 1) = fan d (c.recLimit + 1) := by omega
+    rw [e] at hb
+    simp only [List.map_cons, List.sum_cons, opsSels]
+    rw [Nat.add_mul]
+    split <;> omega
+
+theorem dpFrag_fan (d : Doc) (max : Nat) : ∀ k cur n, (dpFrag d max k cur n).1 + 1 ≤ fan d k
+  | 0, _, _ => by simp [dpFrag, fan]
+  | k + 1, cur, n => by
+    have hp := fan_pos d k
+    simp only [dpFrag]
+    rw [fan_succ]
+    split
+    · simp only; omega
+    · rename_i f heq
+      have hb := dpItems_bounded (dpFrag d max k) max (fan d k - 1)
+        (fun c m => by have := dpFrag_fan d max k c m; omega) f.sels cur
+      have e : 1 + (fan d k - 1) = fan d k := by omega
+      rw [e] at hb
+      have := Nat.mul_le_mul_right (fan d k) (mem_fragsSels (frag?_mem heq))
+      split
+      · simp only; omega
+      · omega
+
+theorem depthPinned_fan (c : Config) (d : Doc) :
+    (depthPinned c d).1 ≤ opsSels d.ops * fan d (c.recLimit + 2) := by
+  have hp := fan_pos d (c.recLimit + 2)
+  have e : 1 + (fan d (c.recLimit + 2) - 1) = fan d (c.recLimit + 2) := by omega
+  have h := seqOps_le (fun o => dpItems (dpFrag d c.recLimit (c.recLimit + 2)) c.recLimit 0 o.sels)
+    (fun o => selsSize o.sels * fan d (c.recLimit + 2)) d.ops
+    (fun o _ => by
+      have hb := dpItems_bounded (dpFrag d c.recLimit (c.recLimit + 2)) c.recLimit (fan d (c.recLimit + 2) - 1)
+        (fun cu m => by have := dpFrag_fan d c.recLimit (c.recLimit + 2) cu m; omega) o.sels 0
+      rw [e] at hb
+      exact hb)
+  rw [sum_opsSels_mul] at h
+  exact h
+
+theorem mdFrag_fan (d : Doc) (lim : Nat) : ∀ k n, (mdFrag d lim k n).1 + 1 ≤ fan d k
+  | 0, _ => by simp [mdFrag, fan]
+  | k + 1, n => by
+    have hp := fan_pos d k
+    simp only [mdFrag]
+    rw [fan_succ]
+    split
+    · simp only; omega
+    · rename_i f heq
+      have hb := mdSels_bounded (mdFrag d lim k) lim (fan d k - 1)
+        (fun m => by have := mdFrag_fan d lim k m; omega) f.sels
+      have e : 1 + (fan d k - 1) = fan d k := by omega
+      rw [e] at hb
+      have := Nat.mul_le_mul_right (fan d k) (mem_fragsSels (frag?_mem heq))
+      omega
+
+theorem dirsPinned_fan (c : Config) (lim : Nat) (d : Doc) :
+    (dirsPinned c lim d).1 ≤ opsSels d.ops * fan d (c.recLimit + 1) := by
+  have hp := fan_pos d (c.recLimit + 1)
+  have e : 1 + (fan d (c.recLimit + 1) - 1) = fan d (c.recLimit + 1) := by omega
+  have h := seqOps_le (fun o => mdSels (mdFrag d lim (c.recLimit + 1)) lim o.sels)
+    (fun o => selsSize o.sels * fan d (c.recLimit + 1)) d.ops
+    (fun o _ => by
+      have hb := mdSels_bounded (mdFrag d lim (c.recLimit + 1)) lim (fan d (c.recLimit + 1) - 1)
+        (fun m => by have := mdFrag_fan d lim (c.recLimit + 1) m; omega) o.sels
+      rw [e] at hb
+      exact hb)
+  rw [sum_opsSels_mul] at h
+  exact h
+
+/-- everything is below `size * (1 + size)^(recLimit + 2)` -/
+theorem fan_walk_le (c : Config) (d : Doc) {k : Nat} (hk : k ≤ c.recLimit + 2) :
+    opsSels d.ops * fan d k ≤ size d * (1 + size d) ^ (c.recLimit + 2) := by
+  have h := sels_le_size d
+  have h1 : fan d k ≤ (1 + size d) ^ (c.recLimit + 2) :=
+    Nat.le_trans (fan_mono d hk) (Nat.pow_le_pow_left (by omega) _)
+  exact Nat.mul_le_mul (by omega) h1
 
 end AGV.Lemmas.Cost
